@@ -35,6 +35,8 @@ type Conv struct {
 	// ExtraMethods: further methods of the same converter: raw Go lines (with their own comment lines).
 	ExtraMethods string `json:"extra_methods,omitempty"`
 	ExpectFail   bool   `json:"expect_fail,omitempty"`
+	// AnyOutcome: generation may succeed or fail with a diagnostic (crash / type-check gates only)
+	AnyOutcome bool `json:"any_outcome,omitempty"`
 	FailNote     string `json:"fail_note,omitempty"`
 	Spec         *Spec  `json:"spec,omitempty"`
 	// Solo: do not share a package with other convs
@@ -157,7 +159,7 @@ func NewCorpus(root, goverterBin string, convs []*Conv, perGroup int) (*Corpus, 
 				c.Groups[g] = []*Conv{cv}
 				continue
 			}
-			if cv.Solo || cv.ExpectFail || len(cv.CLI) > 0 {
+			if cv.Solo || cv.ExpectFail || cv.AnyOutcome || len(cv.CLI) > 0 {
 				flush()
 				cur = []*Conv{cv}
 				flush()
